@@ -86,4 +86,6 @@ def main(tier):
     eclayout.check(rep, 'EC', ['ec_encode_data_base', 'gf_vect_dot_prod_base'], 3, writer=True)
     import stridecover
     stridecover.check(rep, 'EC', {'ec_dot_prod'}, 400)
+    import gfhalf
+    gfhalf.check(rep, 'EC', {'ec_dot_prod'}, 'rdx', (), 160)
     return rep.finish()
